@@ -1,0 +1,376 @@
+//go:build verif
+
+// Contracts for package scte35, checked by /verif/engine (govc). Compiled only with the build
+// tag "verif".
+
+package scte35
+
+import (
+	"github.com/Comcast/gots/v2"
+)
+
+// ---------------------------------------------------------------- C19: closing relation, in/out, Equal
+
+// specCloseKind is a pinned transcription of the closing-rule table (segCloseRules as built by
+// the package initialiser, including the four program-breakaway additions): for an incoming
+// type in and an open type out it gives the rule kind, or ok == false when there is no rule.
+// Kinds: 0 normal, 1 no-breakaway, 2 event id, 3 breakaway, 4 different PTS, 5 not nested,
+// 6 event id and last segment, 7 unconditional.
+func specCloseKind(in, out byte) (kind int, ok bool) {
+	switch in {
+	case 0x10:
+		switch out {
+		case 0x14, 0x20, 0x22, 0x24, 0x26, 0x30, 0x34, 0x36, 0x3c, 0x40, 0x42, 0x44:
+			return 0, true
+		case 0x10, 0x17, 0x19:
+			return 1, true
+		}
+	case 0x11:
+		switch out {
+		case 0x20, 0x22, 0x24, 0x26, 0x30, 0x34, 0x36, 0x3c, 0x40, 0x42, 0x44:
+			return 0, true
+		case 0x10, 0x14, 0x17, 0x19:
+			return 2, true
+		}
+	case 0x12:
+		switch out {
+		case 0x20, 0x30, 0x32, 0x34, 0x36:
+			return 0, true
+		case 0x10, 0x14, 0x17, 0x19:
+			return 2, true
+		}
+	case 0x13:
+		switch out {
+		case 0x20, 0x30, 0x32, 0x34, 0x36:
+			return 0, true
+		}
+	case 0x14:
+		switch out {
+		case 0x20, 0x30, 0x32, 0x34, 0x36:
+			return 0, true
+		case 0x10, 0x17, 0x19:
+			return 3, true
+		}
+	case 0x19:
+		switch out {
+		case 0x14, 0x20, 0x30, 0x32, 0x34, 0x36:
+			return 0, true
+		case 0x10, 0x17, 0x19:
+			return 1, true
+		}
+	case 0x20:
+		switch out {
+		case 0x20, 0x30, 0x32, 0x34, 0x36:
+			return 0, true
+		}
+	case 0x21:
+		switch out {
+		case 0x30, 0x32, 0x34, 0x36:
+			return 0, true
+		case 0x20:
+			return 2, true
+		}
+	case 0x22:
+		switch out {
+		case 0x20, 0x22, 0x24, 0x26, 0x30, 0x34, 0x36, 0x3c, 0x44:
+			return 0, true
+		}
+	case 0x23:
+		switch out {
+		case 0x30, 0x34, 0x36, 0x3c, 0x44:
+			return 0, true
+		case 0x22:
+			return 2, true
+		}
+	case 0x24:
+		switch out {
+		case 0x20, 0x22, 0x24, 0x26, 0x30, 0x34, 0x36, 0x3c, 0x44:
+			return 0, true
+		}
+	case 0x25:
+		switch out {
+		case 0x30, 0x34, 0x36, 0x3c, 0x44:
+			return 0, true
+		case 0x24:
+			return 2, true
+		}
+	case 0x26:
+		switch out {
+		case 0x20, 0x22, 0x24, 0x26, 0x30, 0x34, 0x36, 0x3c, 0x44:
+			return 0, true
+		}
+	case 0x27:
+		switch out {
+		case 0x30, 0x34, 0x36, 0x3c, 0x44:
+			return 0, true
+		case 0x26:
+			return 2, true
+		}
+	case 0x30:
+		switch out {
+		case 0x30, 0x32:
+			return 0, true
+		}
+	case 0x31:
+		switch out {
+		case 0x30:
+			return 2, true
+		}
+	case 0x32:
+		switch out {
+		case 0x30, 0x32:
+			return 0, true
+		}
+	case 0x33:
+		switch out {
+		case 0x32:
+			return 2, true
+		}
+	case 0x34:
+		switch out {
+		case 0x30, 0x3c, 0x44:
+			return 4, true
+		}
+	case 0x35:
+		switch out {
+		case 0x30, 0x3c, 0x44:
+			return 0, true
+		case 0x34:
+			return 6, true
+		}
+	case 0x36:
+		switch out {
+		case 0x30, 0x3c, 0x44:
+			return 4, true
+		}
+	case 0x37:
+		switch out {
+		case 0x30, 0x3c, 0x44:
+			return 0, true
+		case 0x36:
+			return 6, true
+		}
+	case 0x3c:
+		switch out {
+		case 0x30, 0x3c:
+			return 0, true
+		}
+	case 0x3d:
+		switch out {
+		case 0x3c:
+			return 2, true
+		}
+	case 0x40:
+		switch out {
+		case 0x13, 0x40:
+			return 0, true
+		}
+	case 0x41:
+		switch out {
+		case 0x13:
+			return 0, true
+		case 0x40:
+			return 2, true
+		}
+	case 0x42:
+		switch out {
+		case 0x20, 0x22, 0x24, 0x26, 0x30, 0x34, 0x36, 0x3c, 0x42, 0x44:
+			return 0, true
+		}
+	case 0x43:
+		switch out {
+		case 0x20, 0x22, 0x24, 0x26, 0x30, 0x34, 0x36, 0x3c, 0x44:
+			return 0, true
+		case 0x42:
+			return 2, true
+		}
+	case 0x44:
+		switch out {
+		case 0x44:
+			return 0, true
+		case 0x30, 0x3c:
+			return 4, true
+		}
+	case 0x45:
+		switch out {
+		case 0x30, 0x3c:
+			return 0, true
+		case 0x44:
+			return 2, true
+		}
+	case 0x50:
+		switch out {
+		case 0x10, 0x13, 0x14, 0x17, 0x19, 0x20, 0x30, 0x32, 0x34, 0x36, 0x50:
+			return 0, true
+		case 0x40:
+			return 7, true
+		}
+	case 0x51:
+		switch out {
+		case 0x10, 0x13, 0x14, 0x17, 0x19, 0x20, 0x30, 0x32, 0x34, 0x36:
+			return 0, true
+		case 0x50:
+			return 2, true
+		case 0x40:
+			return 7, true
+		}
+	}
+	return 0, false
+}
+
+// specIsOut / specIsIn: the documented lists of segmentation types that open resp. close a segment.
+func specIsOut(t byte) bool {
+	switch t {
+	case 0x10, 0x14, 0x17, 0x19, 0x20, 0x22, 0x30, 0x32, 0x34, 0x36, 0x40, 0x44, 0x50:
+		return true
+	}
+	return false
+}
+
+func specIsIn(t byte) bool {
+	switch t {
+	case 0x11, 0x12, 0x13, 0x15, 0x16, 0x18, 0x21, 0x23, 0x31, 0x33, 0x35, 0x37, 0x41, 0x45, 0x51:
+		return true
+	}
+	return false
+}
+
+// segOf / sigOf: the library's own implementations behind the interfaces (closed world).
+func segOf(d SegmentationDescriptor) *segmentationDescriptor {
+	p, _ := d.(*segmentationDescriptor)
+	return p
+}
+
+func sigOf(s SCTE35) *scte35 {
+	p, _ := s.(*scte35)
+	return p
+}
+
+// specSigHasPTS: whether the signal's command carries a time.
+func specSigHasPTS(s *scte35) bool {
+	switch c := s.commandInfo.(type) {
+	case *timeSignal:
+		return c.hasPTS
+	case *spliceInsert:
+		return c.hasPTS
+	}
+	return false
+}
+
+// specWFDesc: a descriptor as the decoder and the creation API build them: it belongs to one of
+// the library's signals, whose command is one of the library's command types.
+func specWFDesc(d *segmentationDescriptor) bool {
+	return d != nil && sigOf(d.spliceInfo) != nil && specCmdOK(sigOf(d.spliceInfo).commandInfo)
+}
+
+// specCmdOK: one of the library's three command objects (not a nil pointer in an interface).
+func specCmdOK(c SpliceCommand) bool {
+	switch x := c.(type) {
+	case *timeSignal:
+		return x != nil
+	case *spliceNull:
+		return x != nil
+	case *spliceInsert:
+		return x != nil
+	}
+	return false
+}
+
+// specCanClose: the closing relation as a function of the two types, event-id equality, PTS
+// equality and "segment number equals segments expected" (for placement-opportunity ends).
+func specCanClose(in, out byte, sameEvent, samePTS, lastSegment, subSegs, lastSubSeg bool) bool {
+	kind, ok := specCloseKind(in, out)
+	if !ok {
+		return false
+	}
+	switch kind {
+	case 0, 7, 1, 3:
+		return true
+	case 2:
+		return sameEvent
+	case 4:
+		return !samePTS
+	case 6:
+		return specIsIn(in) && sameEvent && lastSegment
+	case 5:
+		return !subSegs || lastSubSeg
+	}
+	return false
+}
+
+//@ transparent segmentationDescriptor.SCTE35 segmentationDescriptor.EventID segmentationDescriptor.TypeID
+//@ transparent segmentationDescriptor.SegmentNumber segmentationDescriptor.SegmentsExpected segmentationDescriptor.HasSubSegments
+//@ transparent segmentationDescriptor.SubSegmentNumber segmentationDescriptor.SubSegmentsExpected
+//@ transparent scte35.PTS scte35.HasPTS timeSignal.HasPTS spliceNull.HasPTS spliceInsert.HasPTS
+
+//@ func (d *segmentationDescriptor) IsOut() bool
+//@   props C19
+//@   requires d != nil
+//@   ensures result == specIsOut(byte(d.typeID))
+//@   modifies nothing
+
+//@ func (d *segmentationDescriptor) IsIn() bool
+//@   props C19
+//@   requires d != nil
+//@   ensures result == specIsIn(byte(d.typeID))
+//@   modifies nothing
+
+// No type is both an in and an out.
+func lemmaInOutDisjoint(t byte) bool { return !(specIsIn(t) && specIsOut(t)) }
+
+//@ func lemmaInOutDisjoint(t byte) bool
+//@   props C19
+//@   ensures result
+
+//@ func (d *segmentationDescriptor) CanClose(out SegmentationDescriptor) bool
+//@   props C19
+//@   requires specWFDesc(d) && specWFDesc(segOf(out))
+//@   ensures result == specCanClose(byte(d.typeID), byte(segOf(out).typeID), d.eventID == segOf(out).eventID, sigOf(d.spliceInfo).pts == sigOf(segOf(out).spliceInfo).pts, d.segNum == d.segsExpected, d.hasSubSegments, d.subSegNum == d.subSegsExpected)
+//@   modifies nothing
+
+// specEqual: same type, both signals carry a PTS and it is the same, same event id, segment
+// numbers and sub-segment numbers.
+func specEqual(d, c *segmentationDescriptor) bool {
+	return d.typeID == c.typeID &&
+		specSigHasPTS(sigOf(d.spliceInfo)) && specSigHasPTS(sigOf(c.spliceInfo)) &&
+		sigOf(d.spliceInfo).pts == sigOf(c.spliceInfo).pts &&
+		d.eventID == c.eventID && d.segNum == c.segNum && d.segsExpected == c.segsExpected &&
+		d.hasSubSegments == c.hasSubSegments &&
+		(!d.hasSubSegments || (d.subSegNum == c.subSegNum && d.subSegsExpected == c.subSegsExpected))
+}
+
+//@ func (d *segmentationDescriptor) Equal(c SegmentationDescriptor) bool
+//@   props C19
+//@   requires (d != nil ==> specWFDesc(d)) && (c != nil ==> specWFDesc(segOf(c)))
+//@   ensures d == nil || c == nil ==> !result
+//@   ensures d != nil && c != nil ==> result == specEqual(d, segOf(c))
+//@   modifies nothing
+
+// Equality is symmetric, transitive, reflexive on descriptors whose signal has a PTS, and a
+// congruence for the closing relation (lemmas over the contracts of Equal and CanClose).
+func lemmaEqualAlgebra(a, b, c *segmentationDescriptor) bool {
+	ab, ba, bc, ac := a.Equal(b), b.Equal(a), b.Equal(c), a.Equal(c)
+	refl := !specSigHasPTS(sigOf(a.spliceInfo)) || a.Equal(a)
+	return ab == ba && (!(ab && bc) || ac) && refl
+}
+
+//@ func lemmaEqualAlgebra(a *segmentationDescriptor, b *segmentationDescriptor, c *segmentationDescriptor) bool
+//@   props C19
+//@   requires specWFDesc(a) && specWFDesc(b) && specWFDesc(c)
+//@   ensures result
+//@   modifies nothing
+
+func lemmaEqualCongruence(a, b, x *segmentationDescriptor) bool {
+	if !a.Equal(b) {
+		return true
+	}
+	return a.CanClose(x) == b.CanClose(x) && x.CanClose(a) == x.CanClose(b)
+}
+
+//@ func lemmaEqualCongruence(a *segmentationDescriptor, b *segmentationDescriptor, x *segmentationDescriptor) bool
+//@   props C19
+//@   requires specWFDesc(a) && specWFDesc(b) && specWFDesc(x)
+//@   ensures result
+//@   modifies nothing
+
+var _ = gots.ErrNoPayload
